@@ -1121,6 +1121,11 @@ class Facts:
         if b.get("synthetic"):
             return set()
         iid = b.get("inst")
+        if iid is None and b.get("eff_site") is not None:
+            # a block of a body the inliner built for a call (an iterator consumer read as a loop, a dispatch over the implementations of
+            # a trait): its calls have the effects the call graph computed for that whole call
+            si, sb = b["eff_site"]
+            return self.call_effects(self.instances[si], sb, creator=creator)
         if iid is not None:
             return self.call_effects(self.instances[iid], b["obb"], creator=creator)
         if getattr(f, "is_inlined", False) and inst is None:
